@@ -206,6 +206,7 @@ class Evaluator:
         self.depth = 0
         self.trace = []                   # notes (asserts skipped, branches chosen)
         self.calls = []                   # (callee name, [arg keys]) of module-level calls seen
+        self.np_log = []                  # (numpy function, [args], result) of opaque numpy calls (inv, qr, det, ...)
 
     # ------------------------------------------------------------------ API
     def call_function(self, name, args, kwargs=None):
@@ -868,6 +869,12 @@ class Evaluator:
         return func_atom(fname, x)
 
     def np_call(self, name, args, kwargs, node):
+        r = self._np_call(name, args, kwargs, node)
+        if name in ("linalg.inv", "linalg.qr", "linalg.det", "linalg.eig", "clip", "unique", "concatenate"):
+            self.np_log.append((name, args, r))
+        return r
+
+    def _np_call(self, name, args, kwargs, node):
         if name in ELEMENTWISE and len(args) == 1 and not kwargs:
             v = args[0]
             A = v if isinstance(v, Arr) else (materialise(v) if isinstance(v, (list, tuple, Opaque)) else None)
